@@ -10,7 +10,7 @@ type weights map[string]int
 
 func baseWeights() weights {
 	return weights{"send": 18, "block": 28, "relay": 26, "dup": 5, "replay": 4, "corrupt": 5, "advance": 4, "drop": 1, "partition": 1,
-		"stall": 1, "skew": 1, "crash": 2, "adv": 2, "advmsg": 1, "gov": 2, "export": 1, "pump": 6, "batch": 2}
+		"stall": 1, "skew": 1, "crash": 2, "adv": 2, "advmsg": 1, "gov": 2, "export": 1, "pump": 6, "batch": 2, "tss": 3}
 }
 
 func focusWeights(focus string) weights {
@@ -27,7 +27,7 @@ func focusWeights(focus string) weights {
 	case "C05":
 		w["dup"], w["replay"], w["corrupt"], w["pump"] = 12, 10, 8, 10
 	case "C06":
-		w["adv"], w["advmsg"], w["gov"], w["corrupt"] = 14, 6, 8, 6
+		w["adv"], w["advmsg"], w["gov"], w["corrupt"], w["tss"] = 14, 6, 8, 6, 14
 	case "C13":
 		w["export"] = 6
 	case "C14":
@@ -48,6 +48,8 @@ func (Scenario) Generate(rng *rand.Rand, focus, tier string) kernel.Plan {
 		"weird_names": kernel.B2I(focus == "C19" || kernel.Chance(rng, 0.25)),
 		"name_off":    rng.Int63n(12),
 		"delay_s":     kernel.B2I(kernel.Chance(rng, 0.2)) * (1 + rng.Int63n(20)),
+		"tss":         kernel.B2I(focus == "C06" || kernel.Chance(rng, 0.4)),
+		"tss_name":    rng.Int63n(2),
 		"subproc":     kernel.B2I(focus == "C14" && kernel.Chance(rng, 0.3)) * (1 + rng.Int63n(3)),
 	}
 	w := focusWeights(focus)
@@ -63,7 +65,7 @@ func (Scenario) Generate(rng *rand.Rand, focus, tier string) kernel.Plan {
 	}
 	var keys []string
 	total := 0
-	for _, k := range []string{"send", "block", "relay", "dup", "replay", "corrupt", "advance", "drop", "partition", "stall", "skew", "crash", "adv", "advmsg", "gov", "export", "pump", "batch"} {
+	for _, k := range []string{"send", "block", "relay", "dup", "replay", "corrupt", "advance", "drop", "partition", "stall", "skew", "crash", "adv", "advmsg", "gov", "export", "pump", "batch", "tss"} {
 		keys = append(keys, k)
 		total += w[k]
 	}
@@ -113,6 +115,8 @@ func (Scenario) Generate(rng *rand.Rand, focus, tier string) kernel.Plan {
 		switch k {
 		case "send":
 			add("send", rng.Int63n(nc), rng.Int63n(4), invalidDst(), rng.Int63n(16), rng.Int63n(7), rng.Int63n(7), rng.Int63n(4)*rng.Int63n(2), rng.Int63n(6)+7*rng.Int63n(6))
+		case "tss":
+			add("tss", rng.Int63n(nc), rng.Int63n(4), rng.Int63n(5), rng.Int63n(4), rng.Int63n(1<<16))
 		case "batch":
 			add("batch", rng.Int63n(nc), rng.Int63n(4), rng.Int63n(2), rng.Int63n(3), rng.Int63n(2), rng.Int63n(3), rng.Int63n(2))
 		case "block":
